@@ -15,12 +15,19 @@ func vAnswer(k int, cmd ipmi.Command, cc byte, body []byte) []byte {
 
 // C17 (connection level): a command sent on a connection that has just carried another
 // command with an arbitrary response gives the same completion code, error verdict and
-// decoded response fields, and transmits the same bytes, as on a fresh connection.
+// decoded response fields, and transmits the same bytes, as on a fresh connection; the
+// earlier command is either another command value or the very same one (command reuse).
 func VerifC17_BackToBack() {
-	k1 := vChoice(vNumIPMICommands)
+	// reuse: the same command value is sent twice on the used connection (as the library's
+	// own multi-step retrievals do), so its response part has already been decoded into
+	reuse := vBool()
 	k2 := vParam("second", -1)
 	if k2 < 0 {
 		k2 = vChoice(vNumIPMICommands)
+	}
+	k1 := k2
+	if !reuse {
+		k1 = vChoice(vNumIPMICommands)
 	}
 	lens := []int{0, 1, 3, 16}
 	cc1, body1 := vByte(), vBytes(lens[vChoice(len(lens))])
@@ -45,7 +52,10 @@ func VerifC17_BackToBack() {
 
 	used := &vFakeTransport{}
 	su := vNewSessionless(used)
-	first := vCommand(k1)
+	first := cmdA
+	if !reuse {
+		first = vCommand(k1)
+	}
 	_, _, _, _, ok1 := refRequest(k1, first)
 	vAssume(ok1)
 	used.reply = func(attempt int, req []byte) ([]byte, error) {
